@@ -38,7 +38,7 @@ Qed.
 Lemma std_one_shape skip s rp : shape_eq (std_one skip s rp) s /\ bnd (std_one skip s rp) = bnd s.
 Proof.
   unfold std_one. destruct (std_skip s skip rp); [split; [apply shape_refl | reflexivity]|].
-  destruct (Rlt_dec _ _); split; try apply shape_refl; try reflexivity. repeat split.
+  split; [repeat split | reflexivity].
 Qed.
 
 Lemma std_fold_shape skip l : forall s, shape_eq (fold_left (std_one skip) l s) s /\ bnd (fold_left (std_one skip) l s) = bnd s.
@@ -100,7 +100,7 @@ Lemma std_one_read skip s rp m :
   read (std_one skip s rp) m = read s m.
 Proof.
   intros H. unfold std_one. destruct (std_skip s skip rp) eqn:E; [reflexivity|].
-  destruct (H eq_refl) as [H1 H2]. destruct (Rlt_dec _ _); [|reflexivity].
+  destruct (H eq_refl) as [H1 H2].
   rewrite read_write_other; [apply read_write_other|]; cbn; intros X; [apply H1 | apply H2]; symmetry; exact X.
 Qed.
 
@@ -384,8 +384,8 @@ Definition ex_s : st := mkSt (fun n => n) (fun k => match k with 0%nat => -1 | _
 Lemma std_old_flips_fixed : read (standard_complex_old ex_s) 0%nat = 1 /\ read ex_s 0%nat = -1 /\ ~ In 0%nat (train ex_s).
 Proof.
   unfold standard_complex_old, std_one_old, ex_s, read; cbn.
+  split; [|split; [reflexivity | intros [H|[]]; discriminate]].
   destruct (Rlt_dec (-1) 0) as [_|N]; [|exfalso; apply N; lra].
-  cbn. split; [|split; [reflexivity | intros [H|[]]; discriminate]].
   rewrite Rabs_left by lra. lra.
 Qed.
 
